@@ -14,11 +14,12 @@ Property   checked directly on the implementation in the same run: partitioned =
 """
 import itertools
 
-from common import cnat, clist, cbool
+from common import cnat, clist, cbool, cstr
 
 LEVEL = "proof"
 THEOREMS = "Props/C19.v"
 EXTS = ["xtc", "trr", "dcd", "dtr"]
+EXTRA_TARGETS = ("Gen/WriterPrograms.vo", "Gen/WriterProgramsChecks.vo")
 RULE = ("histories of write calls: (a) every composition of n frames (n<=5 quick, n<=6 thorough) x 11 formats x "
         "{cell} x {time}; (b) ragged histories: 2-5 batches whose atom count / cell / time presence is perturbed at "
         "random; (c) HDF5 append mode on a file holding 0-3 frames; (d) crash points: after the k-th write, after "
@@ -272,6 +273,30 @@ def run_cases(ctx, cases):
         ctx.break_("correspondence:coqc-evaluation", "\n".join(errs))
         return
     badset = {jobs[i] for i in bad}
+    # the translated write() programs (Gen/WriterPrograms.v) must reproduce the implementation too: this is the
+    # tie of the reflection theorems (validates-before-mutation, schema-complete) to the code
+    gcases = []
+    for ci, (c, o) in enumerate(hist):
+        ws = write_ops(c)
+        gcases.append(("(%s, %s, %s)" % (cstr(c["fmt"]), clist([cnat(i) for i in c["pre"]]),
+                                        clist([coq_batch(op) for op in ws])),
+                       "(%s, %s)" % (impl_results(o, len(ws)), impl_load_to_coq(c["fmt"], o["load"], o, ws))))
+    gbad, gerrs = ctx.coq_mismatches(["MD.Writer.Model", "MD.Gen.WriterPrograms"],
+                                     ("string * list nat * list batch", "list res * option (list orow)"),
+                                     "case_eqb", "run_gen", gcases)
+    if gerrs:
+        ctx.break_("correspondence:coqc-evaluation(write programs)", "\n".join(gerrs))
+    else:
+        byf = {}
+        for i in gbad:
+            byf.setdefault(hist[i][0]["fmt"], []).append(i)
+        for fmt, ii in sorted(byf.items()):
+            ex = sorted(ii, key=lambda i: len(str(hist[i][0]["ops"])))[0]
+            ctx.break_("correspondence:write-program[%s]" % fmt,
+                       "the program translated from %s.write does not reproduce the implementation on %d cases; "
+                       "e.g. %s -> %s" % (fmt, len(ii), hist[ex][0], hist[ex][1]))
+        ctx.notes.setdefault("coverage_extra", {})["write_programs_matching_impl"] = sorted(
+            f for f in FORMATS if f not in byf and any(c["fmt"] == f for c, _o in hist))
     explained = {}
     for fmt, variants in FORMATS.items():
         idx = [i for i, (c, _o) in enumerate(hist) if c["fmt"] == fmt]
@@ -430,7 +455,37 @@ def run_cases(ctx, cases):
                        "the file after the crash is not one of the automaton's crash images: %s -> %s" % (c, o["load"]))
 
 
+def checker_verdicts(ctx):
+    """the reflection checkers' verdict on the write() programs translated from today's source: a format whose
+    write() does not test every field of its API against the file (or never records a schema) fails the
+    property by the checker's own theorem; reported like any other failure (known findings match by tags)"""
+    rc, out = ctx.coq_eval(["MD.Writer.Model", "MD.Writer.Dsl", "MD.Gen.WriterPrograms"], "verdicts2")
+    if rc != 0:
+        ctx.break_("reflection:verdicts", out[-1500:])
+        return
+    rows = _re.findall(r'\("(\w+)"(?:%string)?\s*,\s*(true|false)\s*,\s*(\[[^\]]*\]|nil)\s*,\s*(true|false)\)', out, _re.S)
+    if len(rows) != len(WRITERS):
+        ctx.break_("reflection:verdicts", "unparsed: " + out[-800:])
+        return
+    table = {}
+    for fmt, vbm, unc, ini in rows:
+        unc = _re.findall(r'"(\w+)"', unc)
+        table[fmt] = {"validates_before_mutation": vbm == "true", "untested_fields": unc, "records_schema": ini == "true"}
+        asfound = VNAME.get(FORMATS[fmt][-1])
+        tags = {"fmt": fmt, "explained_by": asfound, "kind": "verdict"}
+        if vbm != "true":
+            ctx.fail("%s: write() mutates the file before a schema test (checker verdict on today's source)" % fmt,
+                     {"kind": "verdict", "fmt": fmt}, observed=table[fmt], expected="check_vbm = true",
+                     tags=dict(tags, what="mutation_before_validation"))
+        if unc:
+            ctx.fail("%s: write() does not test %s against the file's schema (checker verdict on today's source)"
+                     % (fmt, "/".join(unc)), {"kind": "verdict", "fmt": fmt}, observed=table[fmt],
+                     expected="check_complete = true", tags=dict(tags, what="schema_incomplete", ragged=sorted(unc)))
+    ctx.notes.setdefault("coverage_extra", {})["checker_verdicts"] = table
+
+
 def correspond(ctx):
+    checker_verdicts(ctx)
     cases = build_cases(ctx)
     ctx.log("cases:", len(cases))
     run_cases(ctx, cases)
@@ -451,6 +506,639 @@ def search(ctx, broken):
 
 def replay(ctx, rec):
     c = rec["case"]
+    if c.get("kind") == "verdict":
+        checker_verdicts(ctx)
+        ctx.failures = [f for f in ctx.failures if f["case"].get("fmt") == c.get("fmt")]
+        return
     c.setdefault("pre", [])
     c.setdefault("mode", "w")
     run_cases(ctx, [c])
+
+
+# ============================================================================ translator of the write() methods
+# Python `ast` over the write method of every streaming writer  ->  a [wprog] of coq/Writer/Dsl.v, in program order.
+# What it recognises (everything else that involves the schema makes it give up = degraded for that format):
+#   Require f   x = ensure_type(x, ..., can_be_none=False) for a cell/time argument;  `if a is None or b is None: raise`
+#   Check f sd  an `if ...: raise` (no mutation inside) whose accumulated condition mentions the object's state
+#               (`self...`) and a field: n_atoms/shape[1] -> FAtoms, *cell*/*box* -> FCell, time(s) -> FTime;
+#               direction from `<arg> is None` (Missing) / `<arg> is not None` (Extra); a local variable assigned
+#               under such a condition carries it to the `if local is not None: raise` that follows;
+#               inside try/except-with-raise, a mutation of field f is preceded by an implicit Check f Extra
+#               (KeyError / NoSuchNodeError of the container); array containers (h5, nc) check the per-frame
+#               shape before they append/assign coordinates (implicit Check FAtoms Both)
+#   IfFirst     `if self._needs_initialization:`, `if self._needs_write_initialization:`,
+#               `if self._w_has_box is None:`, `if self.frame_counter == 0:`
+#   Init        inside it: self._initialize_*(...), assignments to attributes of self
+#   Mutate m    x.append(..) on a node of the file, self._fh.write / self._file.write / print(.., file=..),
+#               self._write*(..), self.write_*(..), `self._handle.variables[..][..] = ..`; a loop over frames that
+#               mutates is ONE Mutate MRows; a loop over a literal list of field names is unrolled
+#   Commit      self._frame_index += .. / self.frame_counter += ..  (also inside the called self._write for .pyx)
+# Raises that depend on values only (overflow of %8.3f, NaN positions, sorted times) are not schema tests: ignored.
+import ast as _ast
+import os as _os
+import re as _re
+import textwrap as _tw
+
+from common import REPO as _REPO
+
+
+class WOutside(Exception):
+    pass
+
+
+WRITERS = [
+    # key, file, class, is_pyx, container (array library checks shapes), layout name in Coq
+    ("h5", "mdtraj/formats/hdf5.py", "HDF5TrajectoryFile", False, True, None),
+    ("nc", "mdtraj/formats/netcdf.py", "NetCDFTrajectoryFile", False, True, None),
+    ("xtc", "mdtraj/formats/xtc/xtc.pyx", "XTCTrajectoryFile", True, False, "pol_xdr"),
+    ("trr", "mdtraj/formats/xtc/trr.pyx", "TRRTrajectoryFile", True, False, "pol_xdr"),
+    ("dcd", "mdtraj/formats/dcd/dcd.pyx", "DCDTrajectoryFile", True, False, "pol_dcd"),
+    ("mdcrd", "mdtraj/formats/mdcrd.py", "MDCRDTrajectoryFile", False, False, "pol_mdcrd"),
+    ("xyz", "mdtraj/formats/xyzfile.py", "XYZTrajectoryFile", False, False, "pol_xyz"),
+    ("lammpstrj", "mdtraj/formats/lammpstrj.py", "LAMMPSTrajectoryFile", False, False, "pol_lammpstrj"),
+    ("gro", "mdtraj/formats/gro.py", "GroTrajectoryFile", False, False, "pol_gro"),
+    ("pdb", "mdtraj/formats/pdb/pdbfile.py", "PDBTrajectoryFile", False, False, "pol_pdb"),
+    ("dtr", "mdtraj/formats/dtr/dtr.pyx", "DTRTrajectoryFile", True, False, "pol_dtr"),
+]
+FIRST_ATTRS = {"_needs_initialization", "_needs_write_initialization", "_w_has_box", "frame_counter"}
+COUNTER_ATTRS = {"_frame_index", "frame_counter"}
+FIELD_ELEMENT = {"coordinates": ("FAtoms", "MCoords"), "xyz": ("FAtoms", "MCoords"), "time": ("FTime", "MTime"),
+                 "cell_lengths": ("FCell", "MCell"), "cell_angles": ("FCell", "MOther")}
+
+
+def _dotted(n):
+    if isinstance(n, _ast.Name):
+        return n.id
+    if isinstance(n, _ast.Attribute):
+        b = _dotted(n.value)
+        return None if b is None else b + "." + n.attr
+    return None
+
+
+def _field_of_name(name):
+    n = name.lower()
+    if n in ("n_atoms", "_n_atoms", "natoms"):
+        return "FAtoms"
+    if "cell" in n or "box" in n:
+        return "FCell"
+    if n in ("time", "times"):
+        return "FTime"
+    return None
+
+
+class WTr:
+    def __init__(self, container, helpers):
+        self.container = container
+        self.helpers = helpers          # name -> source text of other methods of the class (for Commit inside _write)
+        self.taint = {}                 # local name -> set of (field, side or None), needs self mention already seen
+
+    # ---- expression facts
+    @staticmethod
+    def _walk_pruned(node):
+        """ast.walk without the `self.<first-write attribute> is [not] None` guards (they say whether the file has a
+        schema, not what the schema is)"""
+        todo = [node]
+        while todo:
+            n = todo.pop()
+            if isinstance(n, _ast.Compare) and isinstance(n.left, _ast.Attribute) and n.left.attr in FIRST_ATTRS \
+                    and len(n.comparators) == 1 and isinstance(n.comparators[0], _ast.Constant) \
+                    and n.comparators[0].value is None:
+                continue
+            yield n
+            todo.extend(_ast.iter_child_nodes(n))
+
+    def fields(self, node):
+        out = set()
+        for n in self._walk_pruned(node):
+            if isinstance(n, _ast.Name):
+                f = _field_of_name(n.id)
+                if f:
+                    out.add(f)
+            elif isinstance(n, _ast.Attribute):
+                f = _field_of_name(n.attr)
+                if f:
+                    out.add(f)
+            elif isinstance(n, _ast.Constant) and isinstance(n.value, str) and n.value in FIELD_ELEMENT:
+                if n.value not in ("coordinates", "xyz"):
+                    out.add(FIELD_ELEMENT[n.value][0])
+            elif isinstance(n, _ast.Subscript) and isinstance(n.value, _ast.Attribute) and n.value.attr == "shape":
+                sl = n.slice
+                if isinstance(sl, _ast.Constant) and sl.value == 1:
+                    out.add("FAtoms")
+                elif isinstance(sl, _ast.Slice) and self.container:
+                    out.add("FAtoms")            # node.shape[1:] != contents.shape[1:]
+        return out
+
+    def self_mention(self, node):
+        return any(isinstance(n, _ast.Name) and n.id == "self" for n in _ast.walk(node))
+
+    def sides(self, node):
+        """{field: set of sides} from `<x> is None` / `<x> is not None` where x names a field argument"""
+        out = {}
+        for n in _ast.walk(node):
+            if isinstance(n, _ast.Compare) and len(n.ops) == 1 and isinstance(n.comparators[0], _ast.Constant) \
+                    and n.comparators[0].value is None and isinstance(n.left, _ast.Name):
+                f = _field_of_name(n.left.id) or self.loopvar_field.get(n.left.id)
+                if f is None:
+                    continue
+                if isinstance(n.ops[0], _ast.Is):
+                    out.setdefault(f, set()).add("Missing")
+                elif isinstance(n.ops[0], _ast.IsNot):
+                    out.setdefault(f, set()).add("Extra")
+        return out
+
+    loopvar_field = {}
+
+    def is_mutation_call(self, c):
+        d = _dotted(c.func) or ""
+        if isinstance(c.func, _ast.Attribute):
+            a = c.func.attr
+            if a == "append" and (self.self_mention(c.func.value) or "node" in (_dotted(c.func.value) or "")):
+                return True
+            if a == "write" and d.split(".")[-2:-1] and d.split(".")[-2] in ("_fh", "_file", "fh"):
+                return True
+            if d.startswith("self.") and (a.startswith("_write") or a.startswith("write_")):
+                return True
+        if d == "print" and any(k.arg == "file" for k in c.keywords):
+            return True
+        if d in ("write_timestep", "xdrlib.write_xtc", "trrlib.write_trr"):
+            return True
+        return False
+
+    def has_mutation(self, node):
+        for n in _ast.walk(node):
+            if isinstance(n, _ast.Call) and self.is_mutation_call(n):
+                return True
+            if isinstance(n, (_ast.Assign, _ast.AugAssign)):
+                tg = n.targets if isinstance(n, _ast.Assign) else [n.target]
+                for t in tg:
+                    if isinstance(t, _ast.Subscript) and self.self_mention(t):
+                        return True
+        return False
+
+    def has_raise(self, node):
+        return any(isinstance(n, (_ast.Raise, _ast.Assert)) for n in _ast.walk(node))
+
+    def mut_kind(self, node):
+        names = set()
+        for n in _ast.walk(node):
+            if isinstance(n, _ast.Constant) and isinstance(n.value, str) and n.value in FIELD_ELEMENT:
+                names.add(FIELD_ELEMENT[n.value][1])
+        if len(names) == 1:
+            return names.pop()
+        fs = self.fields(node)
+        coords = any(isinstance(n, _ast.Name) and n.id in ("xyz", "coordinates", "positions", "coord", "line")
+                     for n in _ast.walk(node))
+        if self.container and not coords and not fs:
+            return "MOther"                     # an array of the container that is outside the model (lambda, ...)
+        if coords or len(fs) > 1 or not fs:
+            return "MRows"
+        return {"FTime": "MTime", "FCell": "MCell", "FAtoms": "MRows"}[fs.pop()]
+
+    # ---- statements
+    def block(self, stmts, ctx):
+        out = []
+        for s in stmts:
+            out += self.stmt(s, ctx)
+        return out
+
+    def checks_from_test(self, test_nodes, stmt):
+        """schema tests implied by an `if ...: raise` whose accumulated conditions are test_nodes"""
+        fs, selfm, sd = set(), False, {}
+        for t in test_nodes:
+            fs |= self.fields(t)
+            selfm = selfm or self.self_mention(t)
+            for f, ss in self.sides(t).items():
+                sd.setdefault(f, set()).update(ss)
+            for n in _ast.walk(t):
+                if isinstance(n, _ast.Name) and n.id in self.taint:
+                    for (f, side) in self.taint[n.id]:
+                        fs.add(f)
+                        selfm = True
+                        if side:
+                            sd.setdefault(f, set()).add(side)
+        if not fs:
+            return []
+        if not selfm:
+            # a test of the arguments alone: `if a is None or b is None: raise` requires them; anything else
+            # (both-or-neither, value checks) is not a schema test
+            own = test_nodes[-1]
+            if isinstance(own, _ast.BoolOp) and isinstance(own.op, _ast.Or) or isinstance(own, _ast.Compare):
+                parts = own.values if isinstance(own, _ast.BoolOp) else [own]
+                req = []
+                for p in parts:
+                    if isinstance(p, _ast.Compare) and len(p.ops) == 1 and isinstance(p.ops[0], _ast.Is) \
+                            and isinstance(p.comparators[0], _ast.Constant) and p.comparators[0].value is None \
+                            and isinstance(p.left, _ast.Name) and _field_of_name(p.left.id) in ("FCell", "FTime"):
+                        req.append(_field_of_name(p.left.id))
+                    else:
+                        return []
+                return [("Require", f) for f in dict.fromkeys(req)] if len(test_nodes) == 1 else []
+            return []
+        out = []
+        for f in sorted(fs):
+            if f == "FAtoms":
+                out.append(("Check", f, "Both"))
+            else:
+                ss = sd.get(f, set())
+                if len(ss) == 1:
+                    out.append(("Check", f, next(iter(ss))))
+                elif len(ss) == 2:
+                    out.append(("Check", f, "Both"))
+                else:
+                    raise WOutside("direction of the %s test on line %d" % (f, stmt.lineno))
+        return out
+
+    def stmt(self, s, ctx):
+        tests = ctx["tests"]
+        if isinstance(s, _ast.Expr) and isinstance(s.value, _ast.Constant):
+            return []
+        if isinstance(s, (_ast.Pass, _ast.Import, _ast.ImportFrom, _ast.Return)):
+            return []
+        if isinstance(s, _ast.Raise):
+            return self.checks_from_test(tests, s) if tests else []
+        if isinstance(s, _ast.Assert):
+            return []
+        if isinstance(s, _ast.If):
+            return self.if_stmt(s, ctx)
+        if isinstance(s, (_ast.For, _ast.While)):
+            return self.loop(s, ctx)
+        if isinstance(s, _ast.Try):
+            raising = any(self.has_raise(h) for h in s.handlers)
+            c2 = dict(ctx, in_try=ctx["in_try"] or raising)
+            out = self.block(s.body, c2)
+            for h in s.handlers:
+                if self.has_mutation(h):
+                    raise WOutside("mutation in an except handler")
+            out += self.block(s.orelse, ctx) + self.block(s.finalbody, ctx)
+            return out
+        if isinstance(s, _ast.With):
+            return self.block(s.body, ctx)
+        if isinstance(s, (_ast.Assign, _ast.AugAssign, _ast.AnnAssign)):
+            tg = s.targets if isinstance(s, _ast.Assign) else [s.target]
+            val = s.value
+            # counters
+            for t in tg:
+                d = _dotted(t) or ""
+                if d.startswith("self.") and d.split(".")[-1] in COUNTER_ATTRS and isinstance(s, _ast.AugAssign):
+                    return [("Commit",)]
+            # ensure_type(..., can_be_none=False) on a field argument
+            if isinstance(val, _ast.Call) and (_dotted(val.func) or "").endswith("ensure_type") and val.args:
+                kws = {k.arg: k.value for k in val.keywords}
+                cbn = kws.get("can_be_none")
+                a0 = val.args[0]
+                if isinstance(cbn, _ast.Constant) and cbn.value is False and isinstance(a0, _ast.Name):
+                    f = _field_of_name(a0.id)
+                    if f in ("FCell", "FTime") and not any(tn for tn in tests):
+                        return [("Require", f)]
+                return []
+            # mutation by subscript assignment into the file's variables
+            for t in tg:
+                if isinstance(t, _ast.Subscript) and self.self_mention(t):
+                    return self.mutation(s, ctx)
+            if val is not None and any(isinstance(n, _ast.Call) and self.is_mutation_call(n) for n in _ast.walk(val)):
+                return self.mutation(s, ctx)
+            # self.<attr> = ...  inside a first-write block is the schema being recorded
+            if any((_dotted(t) or "").startswith("self.") for t in tg):
+                return [("Init",)] if ctx["in_first"] else []
+            # taint of locals assigned under schema conditions
+            for t in tg:
+                if isinstance(t, _ast.Name):
+                    fs, selfm, sd = set(), False, {}
+                    for tn in tests:
+                        fs |= self.fields(tn)
+                        selfm = selfm or self.self_mention(tn)
+                        for f, ss in self.sides(tn).items():
+                            sd.setdefault(f, set()).update(ss)
+                    if fs and selfm and not (isinstance(val, _ast.Constant) and val.value is None):
+                        for f in fs:
+                            ss = sd.get(f, {None})
+                            for side in ss:
+                                self.taint.setdefault(t.id, set()).add((f, side))
+            return []
+        if isinstance(s, _ast.Expr) and isinstance(s.value, _ast.Call):
+            c = s.value
+            d = _dotted(c.func) or ""
+            if d.startswith("self._initialize"):
+                return [("Init",)]
+            if self.is_mutation_call(c):
+                return self.mutation(s, ctx)
+            return []
+        if isinstance(s, (_ast.Expr, _ast.Delete, _ast.Global)):
+            return []
+        raise WOutside("statement %s on line %d" % (type(s).__name__, s.lineno))
+
+    def mutation(self, s, ctx):
+        kind = self.mut_kind(s)
+        if ctx["in_first"] and kind == "MRows":
+            kind = "MOther"                     # a title / header line written once
+        out = []
+        if kind == "MCoords" and self.container:
+            out.append(("Check", "FAtoms", "Both"))
+        if ctx["in_try"] and kind in ("MTime", "MCell"):
+            out.append(("Check", {"MTime": "FTime", "MCell": "FCell"}[kind], "Extra"))
+        out.append(("Mutate", kind))
+        # a helper of a .pyx class that advances the frame counter itself
+        for n in _ast.walk(s):
+            if isinstance(n, _ast.Call):
+                d = _dotted(n.func) or ""
+                if d.startswith("self._write") and d.split(".")[-1] in self.helpers:
+                    if _re.search(r"self\.(?:%s)\s*\+=" % "|".join(COUNTER_ATTRS), self.helpers[d.split(".")[-1]]):
+                        out.append(("Commit",))
+        return out
+
+    def is_first_test(self, t):
+        names = {n.attr for n in _ast.walk(t) if isinstance(n, _ast.Attribute) and isinstance(n.value, _ast.Name)
+                 and n.value.id == "self"}
+        args = {n.id for n in _ast.walk(t) if isinstance(n, _ast.Name) and n.id != "self"}
+        if names and names <= FIRST_ATTRS and not (args - {"None", "True", "False"}):
+            # `self._w_has_box is True/False` are tests of the recorded schema, not of "first write"
+            if "_w_has_box" in names:
+                return isinstance(t, _ast.Compare) and isinstance(t.comparators[0], _ast.Constant) \
+                    and t.comparators[0].value is None
+            return not isinstance(t, _ast.UnaryOp)
+        return False
+
+    def if_stmt(self, s, ctx):
+        tests = ctx["tests"]
+        if self.is_first_test(s.test):
+            a = self.block(s.body, dict(ctx, in_first=True))
+            c = self.block(s.orelse, ctx)
+            return [("IfFirst", a, c)]
+        mut = self.has_mutation(s)
+        if not mut and self.has_raise(s):
+            out = self.block(s.body, dict(ctx, tests=tests + [s.test]))
+            out += self.block(s.orelse, ctx)
+            return out
+        if mut:
+            if self.has_raise(s) and (self.fields(s.test) and self.self_mention(s.test)):
+                raise WOutside("schema test mixed with a mutation on line %d" % s.lineno)
+            return self.block(s.body, ctx) + self.block(s.orelse, ctx)
+        # neither raise nor mutation: locals may get tainted
+        return self.block(s.body, dict(ctx, tests=tests + [s.test])) + self.block(s.orelse, dict(ctx, tests=tests + [s.test]))
+
+    def loop(self, s, ctx):
+        if isinstance(s, _ast.For) and isinstance(s.iter, (_ast.List, _ast.Tuple)) and s.iter.elts:
+            # a loop over a literal list of field names (or of (name, value) pairs): unrolled
+            out = []
+            for e in s.iter.elts:
+                name = None
+                if isinstance(e, _ast.Constant) and isinstance(e.value, str):
+                    name = e.value
+                elif isinstance(e, _ast.Tuple) and e.elts and isinstance(e.elts[0], _ast.Constant):
+                    name = e.elts[0].value
+                if name is None:
+                    raise WOutside("loop over a literal that is not a list of field names (line %d)" % s.lineno)
+                if name not in FIELD_ELEMENT:
+                    continue                      # velocities, kineticEnergy ...: fields outside the model
+                f, m = FIELD_ELEMENT[name]
+                out += self.unrolled(s, f, m, ctx)
+            return out
+        if self.has_mutation(s):
+            for n in _ast.walk(s):
+                if isinstance(n, _ast.If) and self.has_raise(n) and self.fields(n.test) and self.self_mention(n.test):
+                    raise WOutside("schema test inside a frame loop (line %d)" % n.lineno)
+            return [("Mutate", "MRows")]
+        return []
+
+    def unrolled(self, loop, f, m, ctx):
+        """one iteration of a field loop for field f: tests become Check f <side>, mutations Mutate m"""
+        # loop targets (value variable) and locals assigned from locals()[name] stand for the field's argument
+        tv = set()
+        tg = loop.target
+        for n in _ast.walk(tg):
+            if isinstance(n, _ast.Name):
+                tv.add(n.id)
+        for n in _ast.walk(loop):
+            if isinstance(n, _ast.Assign) and isinstance(n.targets[0], _ast.Name) and isinstance(n.value, _ast.Subscript) \
+                    and (_dotted(getattr(n.value.value, "func", None)) == "locals"):
+                tv.add(n.targets[0].id)
+        old = WTr.loopvar_field
+        WTr.loopvar_field = {v: f for v in tv}
+        try:
+            out = []
+            for st in loop.body:
+                out += self.unrolled_stmt(st, f, m, ctx, [])
+            return out
+        finally:
+            WTr.loopvar_field = old
+
+    def unrolled_stmt(self, st, f, m, ctx, tests):
+        if isinstance(st, _ast.If):
+            if self.has_mutation(st):
+                out = []
+                if m == "MCoords" and self.container:
+                    out.append(("Check", "FAtoms", "Both"))
+                elif ctx["in_try"] and f != "FAtoms":
+                    out.append(("Check", f, "Extra"))
+                out.append(("Mutate", m))
+                return out
+            if self.has_raise(st):
+                ss = set()
+                for t in tests + [st.test]:
+                    for _f, s2 in self.sides(t).items():
+                        ss |= s2
+                shape = any(isinstance(n, _ast.Attribute) and n.attr == "shape" for n in _ast.walk(st.test))
+                if f == "FAtoms":
+                    return [("Check", "FAtoms", "Both")] if shape else []
+                if shape:
+                    return []                      # per-frame shape of time/cell arrays: not the schema
+                if len(ss) == 1:
+                    return [("Check", f, next(iter(ss)))]
+                if len(ss) == 2:
+                    return [("Check", f, "Both")]
+                raise WOutside("direction of a test in a field loop (line %d)" % st.lineno)
+            return []
+        if isinstance(st, _ast.Try):
+            raising = any(self.has_raise(h) for h in st.handlers)
+            out = []
+            for x in st.body:
+                out += self.unrolled_stmt(x, f, m, dict(ctx, in_try=ctx["in_try"] or raising), tests)
+            return out
+        if self.has_mutation(st):
+            out = []
+            if m == "MCoords" and self.container:
+                out.append(("Check", "FAtoms", "Both"))
+            elif ctx["in_try"] and f != "FAtoms":
+                out.append(("Check", f, "Extra"))
+            out.append(("Mutate", m))
+            return out
+        return []
+
+
+def _extract_method(text, cls, name):
+    m = _re.search(r"^(cdef\s+)?class\s+%s\b.*?:\s*$" % _re.escape(cls), text, _re.M)
+    if not m:
+        raise WOutside("class %s not found" % cls)
+    body = text[m.end():]
+    nxt = _re.search(r"^(?:cdef\s+)?class\s+\w+", body, _re.M)
+    if nxt:
+        body = body[:nxt.start()]
+    d = _re.search(r"^([ \t]+)(?:def|cdef|cpdef)\s+(?:\w+\s+)?%s\s*\(" % _re.escape(name), body, _re.M)
+    if not d:
+        return None
+    ind = len(d.group(1))
+    lines = body[d.start():].splitlines()
+    out = [lines[0]]
+    in_sig = not lines[0].rstrip().endswith(":")
+    for ln in lines[1:]:
+        if in_sig:
+            out.append(ln)
+            if ln.rstrip().endswith(":"):
+                in_sig = False
+            continue
+        if ln.strip() and (len(ln) - len(ln.lstrip())) <= ind:
+            break
+        out.append(ln)
+    return _tw.dedent("\n".join(out))
+
+
+def _strip_pyx(src):
+    out = []
+    for line in src.splitlines():
+        if _re.match(r"\s*cdef\s+(?!class)", line) and not _re.match(r"\s*cdef\s+\w+\s*\(", line):
+            continue
+        line = _re.sub(r"^(\s*)c?p?def\s+(?:\w+\s+)?(\w+\s*\()", r"\1def \2", line) if _re.match(r"\s*(cdef|cpdef)\s", line) else line
+        line = _re.sub(r"np\.ndarray\[[^\]]*\]\s+", "", line)
+        line = _re.sub(r"\b(?:unsigned\s+)?(?:char|int|float|double|long|bint|object|int64_t)\s*\*?\s+(?=\w+\s*[,=)])", "", line)
+        line = _re.sub(r"(?<!\bis)\s+not None(?=\s*[,)])", "", line)
+        line = _re.sub(r"<[A-Za-z_][\w\s.]*\**>", "", line)
+        line = _re.sub(r"&(?=[A-Za-z_])", "", line)
+        out.append(line)
+    return "\n".join(out)
+
+
+def _seqterm(steps):
+    def one(x):
+        if x[0] == "IfFirst":
+            return "(IfFirst %s %s)" % (_seqterm(x[1]), _seqterm(x[2]))
+        if x[0] == "Check":
+            return "(Check %s %s)" % (x[1], x[2])
+        if x[0] == "Require":
+            return "(Require %s)" % x[1]
+        if x[0] == "Mutate":
+            return "(Mutate %s)" % x[1]
+        return x[0]
+    if not steps:
+        return "Skip"
+    r = one(steps[-1])
+    for x in reversed(steps[:-1]):
+        r = "(Seq %s %s)" % (one(x), r)
+    return r
+
+
+def translate_writer(repo, entry):
+    key, rel, cls, is_pyx, container, _lay = entry
+    with open(_os.path.join(repo, rel)) as fh:
+        text = fh.read()
+    src = _extract_method(text, cls, "write")
+    if src is None:
+        raise WOutside("%s.write not found" % cls)
+    helpers = {}
+    for h in ("_write", "_write_frame"):
+        hs = _extract_method(text, cls, h)
+        if hs:
+            helpers[h] = hs
+    if is_pyx:
+        src = _strip_pyx(src)
+    try:
+        fn = _ast.parse(src).body[0]
+    except SyntaxError as e:
+        raise WOutside("cannot parse %s.write: %s" % (cls, e))
+    params = [a.arg for a in fn.args.args]
+    api = ["FAtoms"]
+    if any(_field_of_name(p) == "FCell" for p in params):
+        api.append("FCell")
+    if any(_field_of_name(p) == "FTime" for p in params):
+        api.append("FTime")
+    tr = WTr(container, helpers)
+    steps = tr.block(fn.body, {"tests": [], "in_try": False, "in_first": False})
+    def dedupe(steps):
+        out = []
+        for x in steps:
+            if x[0] == "IfFirst":
+                x = ("IfFirst", dedupe(x[1]), dedupe(x[2]))
+            if out and out[-1] == x and x[0] in ("Init", "Commit", "Require", "Check"):
+                continue
+            if x == ("Mutate", "MRows") and x in out:
+                continue                        # the prints of one frame (MODEL, ATOM lines, ENDMDL) are one mutation
+            out.append(x)
+        return out
+    return dedupe(steps), api
+
+
+def build_writer_gen(repo):
+    """returns (definitions file text, obligations file text, info)"""
+    lines = ["(* GENERATED by harness/props/C19.py from the write() methods of mdtraj on every run. Do not edit. *)",
+             "From Coq Require Import List String Bool.", "Import ListNotations.",
+             "Require Import MD.Writer.Model MD.Writer.Dsl MD.Writer.WriterReference.",
+             "Local Open Scope string_scope.", ""]
+    info = {"degraded": {}, "translated": []}
+    rows = []
+    for entry in WRITERS:
+        key, rel, cls, is_pyx, container, lay = entry
+        try:
+            steps, api = translate_writer(repo, entry)
+            lines.append("Definition %s_write : wprog :=\n  %s." % (key, _seqterm(steps)))
+            lines.append("Definition %s_api : list field := %s." % (key, clist(api)))
+            info["translated"].append(key)
+        except WOutside as e:
+            info["degraded"][key] = str(e)
+            lines.append("Definition %s_write : wprog := WriterReference.%s_write.  (* degraded: %s *)" % (
+                key, key, str(e).replace("*", "x")))
+            lines.append("Definition %s_api : list field := WriterReference.%s_api." % (key, key))
+        rows.append('("%s", %s_write, %s_api)' % (key, key, key))
+        lines.append("")
+    lines.append("Definition writers : list (string * wprog * list field) :=\n  [%s]." % ";\n   ".join(rows))
+    lines.append("")
+    lines.append("(* verdicts of the checkers on today's source, read by the harness *)")
+    lines.append("Definition verdicts : list (string * bool * bool * bool) :=\n"
+                 "  map (fun x => let '(n, p, api) := x in (n, check_vbm p, check_complete api p, check_init p)) writers.")
+    lines.append("")
+    lines.append("Definition fname (f : field) : string := match f with FAtoms => \"atoms\" | FCell => \"cell\" | FTime => \"time\" end.")
+    lines.append("Definition verdicts2 : list (string * bool * list string * bool) :=\n"
+                 "  map (fun x => let '(n, p, api) := x in (n, check_vbm p, "
+                 "map fname (filter (fun f => negb (cov Extra f p && cov Missing f p)) api), check_init p)) writers.")
+    lines.append("")
+    lines.append("(* the meaning of the translated programs on the histories of the correspondence run *)")
+    lines.append("Definition run_gen (c : string * list nat * list batch) : list res * option (list orow) :=")
+    lines.append("  let '(fmt, pre, h) := c in")
+    lines.append("  let preb := {| b_ids := pre; b_atoms := 4; b_cell := true; b_time := true |} in")
+    lines.append("  let h' := match pre with [] => h | _ => preb :: h end in")
+    lines.append("  let drop (r : list res * option (list orow)) := match pre with [] => r | _ => (tl (fst r), snd r) end in")
+    lines.append("  drop (")
+    for entry in WRITERS:
+        key, lay = entry[0], entry[5]
+        if key == "h5":
+            body = "let '(rs, st) := run (sem h5_bk h5_write) h' h5init in (rs, h5_load st)"
+        elif key == "nc":
+            body = "let '(rs, st) := run (sem nc_bk nc_write) h' ncinit in (rs, nc_load st)"
+        else:
+            body = "let '(rs, st) := run (sem (stream_bk %s) %s_write) h' sinit in (rs, sload st)" % (lay, key)
+        lines.append('    if String.eqb fmt "%s" then (%s) else' % (key, body))
+    lines.append("    ([], None)).")
+    obl = ["(* GENERATED by harness/props/C19.py: obligations about Gen/WriterPrograms.v, re-proved on every run. *)",
+           "From Coq Require Import List String Bool.", "Import ListNotations.",
+           "Require Import MD.Writer.Model MD.Writer.Dsl MD.Writer.Reflect MD.Writer.SemEq MD.Gen.WriterPrograms.", ""]
+    for entry in WRITERS:
+        key, lay = entry[0], entry[5]
+        obl.append("Lemma vbm_%s : check_vbm %s_write = true. Proof. vm_compute. reflexivity. Qed." % (key, key))
+        if lay:
+            obl.append("Lemma sem_%s : stream_sim %s %s_write. Proof. sem_stream_eq. Qed." % (key, lay, key))
+    obl.append("Lemma sem_h5 : forall b st, sem h5_bk h5_write b st = h5_fix b st. Proof. sem_h5_eq. Qed.")
+    obl.append("Lemma sem_nc : forall b st, n_fi st <= List.length (n_rows st) -> sem nc_bk nc_write b st = nc_fix b st. "
+               "Proof. sem_nc_eq. Qed.")
+    obl.append("Lemma all_vbm : forallb (fun x => check_vbm (snd (fst x))) writers = true. Proof. vm_compute. reflexivity. Qed.")
+    return "\n".join(lines) + "\n", "\n".join(obl) + "\n", info
+
+
+def translate(ctx):
+    defs, obl, info = build_writer_gen(_REPO)
+    ctx.write_gen("Gen/WriterPrograms.v", defs)
+    ctx.write_gen("Gen/WriterProgramsChecks.v", obl)
+    ctx.notes.setdefault("coverage_extra", {})["translator"] = {
+        "writers_translated": info["translated"], "degraded": info["degraded"],
+        "reflection_lemmas_in_Gen": len(_re.findall(r"^Lemma ", obl, _re.M))}
+    if info["degraded"]:
+        ctx.notes["translator"] = "degraded: %s" % info["degraded"]
+        ctx.log("translator degraded for", info["degraded"])
